@@ -137,6 +137,8 @@ inline double dangling(double x) { const double& r{std::clamp(x, -1.0, 1.0)}; re
 inline double history(double x) { static const double first{x}; return first; }
 inline int counter() { static int n = 0; return ++n; }
 inline double array_element(std::array<double, 3>& a, std::size_t i) { return a[i]; }
+inline double optional_deref(const std::optional<double>& o) { return *o; }
+inline int integer_divide(int a, int b) { return a / b; }
 }  // namespace phq_verif_control
 '''
 
